@@ -66,6 +66,14 @@ CHECKS = {
    text="Seeded universes of small files over a deliberately tiny name space make every conflict class frequent. Three modes: sequential histories on local Files/Types registries compared operation by operation with an abstract name-table model written from the documentation, with a full observation compared before/after every failed registration; exclusive registration phases alternating with 2-4 concurrent Find/Range/Num clients under the race detector; and 2-4 clients issuing all operations concurrently, under seeded schedules, on fresh registries swapped into GlobalFiles/GlobalTypes, whose recorded history (invoke/return stamped with scheduler event sequence numbers) is checked for linearizability against the model with porcupine.",
    note="Sampling of universes, histories and schedules; histories <= 30 operations; porcupine time-outs are counted as inconclusive, never reported. The model is trusted; universe files are restricted to schemas protodesc accepts.",
    technique="deterministic simulation: seeded histories vs an executable name-table model; concurrent histories under a seeded scheduler checked for linearizability with porcupine"),
+ "C16": dict(level="exploration", ref="DESIGN.md section 4 (C16)",
+   text="Seeded histories alternate read phases, in which 1-3 clients concurrently call Size / Marshal / MarshalAppend / deterministic Marshal / UseCachedSize pairs (within their contract) / getters / Clone / Equal on a nested message and its submessages (all of which fill size caches), with exclusive mutation phases (scalar sets, clears, submessage replacement, in-place mutation of list and map element messages, appends, truncation, unknown-field appends, Merge). The mutation log is the model: before each read phase a twin is rebuilt by replaying the log into a never-sized message; every Marshal result must decode to that twin, deterministic bytes must be identical, Size must agree, and no size-mismatch error may occur. Read phases run under the seeded scheduler and (in the race build) the race detector.",
+   note="Sampling of histories and schedules. Concurrent mutation is out of scope by the property's own wording; UseCachedSize is exercised only inside its documented contract.",
+   technique="deterministic simulation: seeded mutate/size/marshal histories with scheduled concurrent read phases, checked against a mutation-log reference model"),
+ "C15": dict(level="exploration", ref="DESIGN.md section 4 (C15)",
+   text="Seeded histories (sets, clears, generated setters, oneof switches, list/map edits, extension and unknown-field writes, lazy/eager/merging decodes, decodes that fail midway on truncated or corrupt input, partial expansion of lazily held content, Marshal) end in an erasing operation: Unmarshal without Merge (lazy or eager), proto.Reset, the generated Reset method, or reflection-based reset. Every buffer the message was ever decoded from is then overwritten and the message is compared with a fresh one: Equal, deterministic bytes, and a walk over Has / WhichOneof / GetUnknown / extension set. The searched dimension is where failed decodes and lazy expansions fall in the history.",
+   note="Sampling of histories. Reading or editing a message after a decode that failed midway is not part of the property (its state is unspecified); such accesses run protected and panics there are counted, not reported.",
+   technique="deterministic simulation: seeded operation histories with injected failed decodes and buffer scribbles, compared against a fresh-message reference"),
 }
 
 def main():
